@@ -116,11 +116,21 @@ Bump(s, r, j) == [nt |-> s.nt + (IF NonTrivial(r, j) THEN 1 ELSE 0),
                   model_rewrites |-> s.model_rewrites + (IF j.model THEN 1 ELSE 0),
                   model_dev |-> s.model_dev + (IF j.mdev THEN 1 ELSE 0)]
 
+\* the same text parsed and rewritten a second time in the same process (obs.after2): the property holds for that
+\* condition as well - a rewrite whose result depends on the rewrites made before it (a shared table) shows here
+Second(r) ==
+  LET o == r.obs IN
+  IF Has(o, "panic2") THEN {V("panic", "second rewrite " \o r.op)}
+  ELSE IF Has(o, "after2") /\ Has(o, "before") /\ Has(o, "after") /\ o.after = o.before /\ o.after2 # o.before
+       THEN {V("not-equivalent", "second rewrite of the same text " \o r.op)}
+  ELSE {}
+
 Init == l = 1 /\ st = Zero
 Step == /\ l <= Len(Trace)
         /\ LET r == Trace[l] j == Judge(r) IN
              /\ IF j.v.class = "ok" THEN TRUE
                 ELSE CSVWrite("%1$s", <<ToJson([id |-> r.id, class |-> j.v.class, sig |-> j.v.sig])>>, IOEnv.VERDICT_FILE)
+             /\ \A v \in Second(r) : CSVWrite("%1$s", <<ToJson([id |-> r.id, class |-> v.class, sig |-> v.sig])>>, IOEnv.VERDICT_FILE)
              /\ st' = Bump(st, r, j)
         /\ l' = l + 1
 Finish == /\ l = Len(Trace) + 1
